@@ -24,7 +24,7 @@ def cases_for(prop, seed):
             Tt = rnd.randint(1, 2 ** rnd.choice([2, 6, 12]))
             cs.append([Tt, ri(rnd.choice([4, 20, 30])), ri(rnd.choice([3, 16, 26])), rnd.choice([0, ri(3), ri(14)]),
                        rnd.choice(['clear', 0, M - 1, rnd.randint(0, M - 1)])])
-        out.append(('plotink.ebb_calc', 'move_dist_t3', cs, {'ghost_dps': 15, 'mpf_inexact': 'real'}))
+        out.append(('plotink.ebb_calc', 'move_dist_t3', cs, {'ghost_dps': 15, 'mpf_inexact': 'emulate', 'mpf_checks': False}))
         out.append(('plotink.ebb_calc', 'rate_t3', [c[:4] for c in cs], {}))
     elif prop == 'C17':
         cs = [[rnd.randint(1, 400), ri(rnd.choice([4, 24])), ri(rnd.choice([3, 18])), rnd.choice([0, ri(3), ri(12)])] for _ in range(150)]
@@ -62,4 +62,38 @@ def cases_for(prop, seed):
             return [T(i, T(*(lambda x, y: (float(x), float(y), float(x + rnd.randint(0, 2)), float(y + rnd.randint(0, 2))))(rnd.randint(0, 4), rnd.randint(0, 4)))) for i in range(n)]
         out.append(('plotink.rtree', 'Index.intersection', [[[boxes()], T(float(rnd.randint(-1, 5)), float(rnd.randint(-1, 5)), float(rnd.randint(2, 7)), float(rnd.randint(2, 7)))] for _ in range(80)],
                     {'ctor': True}))
+    elif prop == 'C03':
+        cs = []
+        for _ in range(220):
+            st = rnd.choice([rnd.randint(-40, 400), rnd.randint(1, 6), 0])
+            rt = rnd.choice([ri(28), ri(20), rnd.randint(-3, 3)])
+            ac = rnd.choice([0, ri(20), ri(10), -rt // max(1, rnd.randint(1, 40))])
+            cs.append([st, rt, ac, rnd.choice(['clear', 0, M - 1, rnd.randint(0, M - 1)])])
+        # every mpmath operation is emulated bit-exactly (correct rounding at the working precision), sqrt included
+        out.append(('plotink.ebb_calc', 'calculate_lm', cs, {'ghost_dps': 15, 'mpf_inexact': 'emulate', 'mpf_checks': False}))
+        out.append(('plotink.ebb_motion', 'moveTimeLM', [c[:3] for c in cs[:60]], {'ghost_dps': 15, 'mpf_inexact': 'emulate', 'mpf_checks': False}))
+    elif prop == 'C13':
+        cs = []
+        while len(cs) < 60:
+            n = rnd.randint(1, 6)
+            v = [[[float(rnd.randint(0, 8)), float(rnd.randint(0, 8))], [float(rnd.randint(0, 8)), float(rnd.randint(0, 8))]] for _ in range(n)]
+            rev = rnd.choice([True, False])
+            xs = [q[0][0] for q in v] + ([q[1][0] for q in v] if rev else [])
+            ys = [q[0][1] for q in v] + ([q[1][1] for q in v] if rev else [])
+            if max(xs) - min(xs) + max(ys) - min(ys) == 0:
+                continue
+            order = list(range(n))
+            rnd.shuffle(order)
+            hist = []
+            for k in order[:rnd.randint(0, n)]:
+                hist.append(['nearest', [T(float(rnd.randint(-3, 11)), float(rnd.randint(-3, 11)))]])
+                hist.append(['remove_path', [k]])
+            hist.append(['nearest', [T(float(rnd.randint(-3, 11)), float(rnd.randint(-3, 11)))]])
+            cs.append([[v, rnd.choice([1, 2, 3, 4]), rev], hist])
+        out.append(('plotink.spatial_grid', 'Index.nearest', cs, {'ctor': True, 'history': True}))
+    elif prop == 'C10':
+        def curve():
+            n = rnd.randint(2, 3)
+            return [[[float(rnd.randint(0, 12)), float(rnd.randint(0, 12))] for _ in range(3)] for _ in range(n)]
+        out.append(('plotink.plot_utils', 'subdivideCubicPath', [[curve(), rnd.choice([0.5, 1.0, 3.0, 40.0])] for _ in range(30)], {'check_args': True}))
     return out
